@@ -30,14 +30,8 @@ def spec_of(case):
 def value_of_result(case, p, res, spec):
     """-> (problems, objective value in 'smaller is better' form or INF for no-solution)."""
     alg = case["alg"]
-    if res is None:
-        if alg == "cg":
-            return [], INF
-        return [("no-solution-result-is-None-instead-of-the-placeholder", None)], INF
-    if res == "placeholder":
-        if alg == "cbldm":
-            return [], INF
-        return [("placeholder-returned-by-complete-greedy", None)], INF
+    if res is None or res == "placeholder":
+        return [], INF            # both are explicit no-solution-yet results (today: None from complete greedy, an infinite-sum placeholder from cbldm)
     sums, bins = res
     probs = preds.partition_problems(p, bins, case["numbins"])
     if probs:
